@@ -62,8 +62,14 @@ def run(gen_path, lines, rlimit=RLIMIT_DEFAULT, seed=None, extra=None, timeout=9
             continue
         spans = []
         for sp in d.get("spans", []):
-            spans.append({"line_start": sp["line_start"], "line_end": sp["line_end"], "primary": sp["is_primary"],
-                          "label": sp.get("label"), "file": sp.get("file_name")})
+            primary, label = sp["is_primary"], sp.get("label")
+            # a span inside a macro expansion (panic!, todo!, unreachable!, ...): walk out to the call site
+            hops = 0
+            while sp.get("expansion") and os.path.basename(sp.get("file_name") or "") != os.path.basename(gen_path) and hops < 8:
+                sp = sp["expansion"]["span"]
+                hops += 1
+            spans.append({"line_start": sp["line_start"], "line_end": sp["line_end"], "primary": primary,
+                          "label": label, "file": sp.get("file_name")})
         for ch in d.get("children", []):
             for sp in ch.get("spans", []):
                 spans.append({"line_start": sp["line_start"], "line_end": sp["line_end"], "primary": False,
